@@ -138,6 +138,34 @@ class NpStub:
 
     unique = staticmethod(unique_sym)
 
+    # tolerant comparisons / predicates on proxies (numpy's own versions reject object dtype)
+    def isclose(self, a, b, rtol=1e-05, atol=1e-08, equal_nan=False):
+        if not has_sym(a, b):
+            return self._real.isclose(a, b, rtol=rtol, atol=atol, equal_nan=equal_nan)
+        if np.ndim(a) == 0 and np.ndim(b) == 0:
+            if core._is_nonfinite(a) or core._is_nonfinite(b):
+                return bool(a == b) if not (core.is_sym(a) or core.is_sym(b)) else False
+            return abs(a - b) <= atol + rtol * abs(b)
+        aa, bb = np.broadcast_arrays(np.asarray(a, dtype=object), np.asarray(b, dtype=object))
+        return np.array([bool(self.isclose(x, y, rtol, atol)) for x, y in zip(aa.ravel(), bb.ravel())]).reshape(aa.shape)
+
+    def allclose(self, a, b, rtol=1e-05, atol=1e-08, equal_nan=False):
+        return bool(np.all(self.isclose(a, b, rtol, atol)))
+
+    def isfinite(self, x):
+        if not has_sym(x):
+            return self._real.isfinite(x)
+        if np.ndim(x) == 0:
+            return True
+        return np.array([True if is_sym(v) else bool(np.isfinite(v)) for v in np.asarray(x, dtype=object).ravel()]).reshape(np.shape(x))
+
+    def isnan(self, x):
+        if not has_sym(x):
+            return self._real.isnan(x)
+        if np.ndim(x) == 0:
+            return False
+        return np.array([False if is_sym(v) else bool(np.isnan(v)) for v in np.asarray(x, dtype=object).ravel()]).reshape(np.shape(x))
+
 
 _installed = {}
 
